@@ -329,6 +329,18 @@ Definition upd_len_ok_v0 (p : profile) (buflen wl al : N) : option bool :=
               end
   end.
 
+(* the error bookkeeping after the walk: missing ORIGIN/AS_PATH, missing NEXT_HOP,
+   and the attribute block not ending where the walk stopped *)
+Definition post_errs (reach_len arem : N) (s : ustate) : ustate :=
+  let s := if negb (reach_len =? 0) || (match u_mp_reach s with Some _ => true | None => false end) then
+             let s := if negb (seen s 1) || negb (seen s 2) then add_err s 1 64 else s in
+             if (match u_errs s with [] => true | _ => false end)
+                && (match u_nexthop s with None => true | _ => false end)
+                && negb (reach_len =? 0)
+             then add_err s 3 64 else s
+           else s in
+  if negb (arem =? 0) then add_err s 0 0 else s.
+
 Inductive pupdate :=
 | UEor (fam : N)
 | URoutes (reach : option (N * list (N * nlri) * option (list N)))
@@ -357,13 +369,7 @@ Section Update.
     let reach_len := buflen - (23 + wl + al) in
     '(s, arem) <- attr_loop (S (length c)) (c_two_byte cd) c al u0 ;;
     if (reach_len =? 0) && (al =? 0) && (wl =? 0) then Ok (UEor F_IPV4) else
-    let s := if negb (reach_len =? 0) || (match u_mp_reach s with Some _ => true | None => false end) then
-               let s := if negb (seen s 1) || negb (seen s 2) then add_err s 1 64 else s in
-               if is_nil (u_errs s) && (match u_nexthop s with None => true | _ => false end)
-                  && negb (reach_len =? 0)
-               then add_err s 3 64 else s
-             else s in
-    let s := if negb (arem =? 0) then add_err s 0 0 else s in
+    let s := post_errs reach_len arem s in
     let nlri_bytes := skipn (nat_of al) c in
     reach <- (if negb (reach_len =? 0) then
                 ap <- req MAL (fam_lookup (c_fams cd) F_IPV4) ;;
